@@ -133,8 +133,6 @@ impl<A: Actor, R: RestartStrategy<A>> Environment<A, R> {
             actor.stopped(&mut self.ctx).await;
 
             self.stop.notify();
-            #[cfg(feature = "verif")]
-            crate::verif::sync_point().await;
             Ok(actor)
         };
 
@@ -183,8 +181,6 @@ impl<A: Actor, R: RestartStrategy<A>> Environment<A, R> {
             actor.stopped(&mut self.ctx).await;
 
             self.stop.notify();
-            #[cfg(feature = "verif")]
-            crate::verif::sync_point().await;
             Ok(actor)
         };
 
